@@ -604,6 +604,9 @@ impl SplitPool {
         chan: &CorroSender<oneshot::Sender<DropGuard>>,
         queue: &'static str,
     ) -> Result<WriteConn, PoolError> {
+        #[cfg(feature = "verif")]
+        crate::verif::point("pool.request", queue);
+
         let (tx, rx) = oneshot::channel();
         let max_timeout = Duration::from_secs(5 * 60);
 
@@ -631,6 +634,9 @@ impl SplitPool {
 
         histogram!("corro.sqlite.write_permit.acquisition.seconds")
             .record(start.elapsed().as_secs_f64());
+
+        #[cfg(feature = "verif")]
+        crate::verif::point("pool.granted", queue);
 
         Ok(WriteConn {
             conn,
@@ -689,6 +695,13 @@ pub struct WriteConn {
     conn: sqlite_pool::Connection<CrConn>,
     _drop_guard: DropGuard,
     _permit: OwnedSemaphorePermit,
+}
+
+#[cfg(feature = "verif")]
+impl Drop for WriteConn {
+    fn drop(&mut self) {
+        crate::verif::point("pool.released", "");
+    }
 }
 
 impl Deref for WriteConn {
@@ -881,8 +894,12 @@ impl LockRegistry {
             id,
             registry: self.clone(),
         };
+        #[cfg(feature = "verif")]
+        crate::verif::point("lock.acquiring", &format!("{id}|{:p}|W|{label}", lock as *const _ as *const ()));
         let w = lock.write().await;
         self.set_lock_state(&id, LockState::Locked);
+        #[cfg(feature = "verif")]
+        crate::verif::point("lock.locked", &id.to_string());
         CountedTokioRwLockWriteGuard { lock: w, _tracker }
     }
 
@@ -907,8 +924,12 @@ impl LockRegistry {
             id,
             registry: self.clone(),
         };
+        #[cfg(feature = "verif")]
+        crate::verif::point("lock.acquiring", &format!("{id}|{:p}|W|{label}", Arc::as_ptr(&lock) as *const ()));
         let w = lock.write_owned().await;
         self.set_lock_state(&id, LockState::Locked);
+        #[cfg(feature = "verif")]
+        crate::verif::point("lock.locked", &id.to_string());
         CountedOwnedTokioRwLockWriteGuard { lock: w, _tracker }
     }
 
@@ -933,8 +954,12 @@ impl LockRegistry {
             id,
             registry: self.clone(),
         };
+        #[cfg(feature = "verif")]
+        crate::verif::point("lock.acquiring", &format!("{id}|{:p}|W|{label}", lock as *const _ as *const ()));
         let w = lock.blocking_write();
         self.set_lock_state(&id, LockState::Locked);
+        #[cfg(feature = "verif")]
+        crate::verif::point("lock.locked", &id.to_string());
         CountedTokioRwLockWriteGuard { lock: w, _tracker }
     }
 
@@ -959,6 +984,8 @@ impl LockRegistry {
             id,
             registry: self.clone(),
         };
+        #[cfg(feature = "verif")]
+        crate::verif::point("lock.acquiring", &format!("{id}|{:p}|W|{label}", Arc::as_ptr(&lock) as *const ()));
         let w = loop {
             if let Ok(w) = lock.clone().try_write_owned() {
                 break w;
@@ -967,6 +994,8 @@ impl LockRegistry {
             std::thread::sleep(Duration::from_millis(1));
         };
         self.set_lock_state(&id, LockState::Locked);
+        #[cfg(feature = "verif")]
+        crate::verif::point("lock.locked", &id.to_string());
         CountedOwnedTokioRwLockWriteGuard { lock: w, _tracker }
     }
 
@@ -994,8 +1023,12 @@ impl LockRegistry {
             id,
             registry: self.clone(),
         };
+        #[cfg(feature = "verif")]
+        crate::verif::point("lock.acquiring", &format!("{id}|{:p}|R|{label}", lock as *const _ as *const ()));
         let w = lock.read().await;
         self.set_lock_state(&id, LockState::Locked);
+        #[cfg(feature = "verif")]
+        crate::verif::point("lock.locked", &id.to_string());
         CountedTokioRwLockReadGuard { lock: w, _tracker }
     }
 
@@ -1020,8 +1053,12 @@ impl LockRegistry {
             id,
             registry: self.clone(),
         };
+        #[cfg(feature = "verif")]
+        crate::verif::point("lock.acquiring", &format!("{id}|{:p}|R|{label}", lock as *const _ as *const ()));
         let w = lock.blocking_read();
         self.set_lock_state(&id, LockState::Locked);
+        #[cfg(feature = "verif")]
+        crate::verif::point("lock.locked", &id.to_string());
         CountedTokioRwLockReadGuard { lock: w, _tracker }
     }
 
@@ -1061,7 +1098,9 @@ struct LockTracker {
 
 impl Drop for LockTracker {
     fn drop(&mut self) {
-        self.registry.remove(&self.id)
+        self.registry.remove(&self.id);
+        #[cfg(feature = "verif")]
+        crate::verif::point("lock.released", &self.id.to_string());
     }
 }
 
